@@ -323,7 +323,91 @@ def call_lib(ex, st, dotted, args, kwargs, node):
     f = NP.get(dotted)
     if f is not None:
         return f(ex, st, args, kwargs)
+    if dotted.startswith("numpy."):
+        r = concrete_fallback(dotted, args, kwargs)
+        if r is not _SYM:
+            return r
     raise Unsupported("library call %s at %s" % (dotted, ex.where(node, st)))
+
+
+def _to_concrete(v):
+    """Value -> plain python/numpy value if it has no symbolic part, else _SYM."""
+    if v is None or isinstance(v, (bool, int, str)):
+        return v
+    if isinstance(v, Fraction):
+        return float(v)
+    if isinstance(v, SArr):
+        fl = []
+        for x in v.flat():
+            c = V.conc(x) if not isinstance(x, (int, bool)) else x
+            if c is None:
+                return _SYM
+            fl.append(c)
+        if v.kind == "i":
+            return _np.array([int(x) for x in fl], dtype=int).reshape(v.shape)
+        if v.kind == "b":
+            return _np.array([bool(x) for x in fl], dtype=bool).reshape(v.shape)
+        return _np.array([float(x) for x in fl], dtype=float).reshape(v.shape)
+    if isinstance(v, (list, tuple)):
+        out = [_to_concrete(x) for x in v]
+        if any(x is _SYM for x in out):
+            return _SYM
+        return type(v)(out)
+    sx = _sx()
+    if isinstance(v, sx.Builtin) and v.name in ("int", "float", "bool"):
+        return {"int": int, "float": float, "bool": bool}[v.name]
+    if isinstance(v, sx.RangeVal) and v.concrete():
+        return range(v.lo, v.hi, v.step)
+    c = V.conc(v) if isz(v) else None
+    if c is not None:
+        return float(c) if isinstance(c, Fraction) else c
+    return _SYM
+
+
+def _from_concrete(r):
+    if isinstance(r, _np.ndarray):
+        if r.dtype == bool:
+            return L.mk([bool(x) for x in r.reshape(-1)], r.shape, "b")
+        if _np.issubdtype(r.dtype, _np.integer):
+            return L.mk([int(x) for x in r.reshape(-1)], r.shape, "i")
+        if _np.issubdtype(r.dtype, _np.floating):
+            return L.mk([V.frac_of_float(float(x)) for x in r.reshape(-1)], r.shape, "f")
+        raise Unsupported("concrete numpy result of dtype %s" % r.dtype)
+    if isinstance(r, tuple):
+        return tuple(_from_concrete(x) for x in r)
+    if isinstance(r, list):
+        return [_from_concrete(x) for x in r]
+    if isinstance(r, (_np.integer,)):
+        return int(r)
+    if isinstance(r, (_np.floating, float)):
+        return V.frac_of_float(float(r))
+    if isinstance(r, (_np.bool_, bool)):
+        return bool(r)
+    if isinstance(r, int) or r is None:
+        return r
+    raise Unsupported("concrete numpy result %r" % (r,))
+
+
+def concrete_fallback(dotted, args, kwargs):
+    """A numpy function outside the model whose arguments are all concrete (index bookkeeping such as
+    np.unique / np.fromiter / np.argsort on known integers) is evaluated by the checker's own numpy."""
+    cargs = [_to_concrete(a) for a in args]
+    ckw = {k: _to_concrete(v) for k, v in kwargs.items()}
+    if any(a is _SYM for a in cargs) or any(v is _SYM for v in ckw.values()):
+        return _SYM
+    f = _np
+    for part in dotted.split(".")[1:]:
+        f = getattr(f, part, None)
+        if f is None:
+            return _SYM
+    if "random" in dotted:
+        return _SYM
+    try:
+        r = f(*cargs, **ckw)
+    except Exception as e:
+        raise Unsupported("concrete evaluation of %s failed: %s" % (dotted, e))
+    L.used("%s on concrete arguments: evaluated by the checker's numpy" % dotted)
+    return _from_concrete(r)
 
 
 def np_array(ex, st, args, kwargs):
